@@ -296,7 +296,70 @@ pub fn run_into(rep: &Report) {
     });
 }
 
+fn c13_pair_for_spec(rep: &Report, base: &std::path::Path, s: &PSpec) {
+            let tree = s.tree();
+            let mut outs = vec![];
+            for tn in [true, false] {
+                let _ = std::fs::remove_dir_all(base);
+                std::fs::create_dir_all(base).unwrap();
+                write_tree(base, &tree);
+                let r = run_canonical(Config {
+                    base_dir: base.to_path_buf(),
+                    shell_cmd: String::new(),
+                    inputs: vec![s.outp(0)],
+                    recursive: false,
+                    num_threads: 1,
+                    mode: Mode::Build,
+                    verbosity: Verbosity::Quiet,
+                    trailing_newline: tn,
+                });
+                rep.tv(1);
+                rep.tr(1);
+                outs.push((r.verdict.is_ok(), std::fs::read(base.join(s.outp(1))).ok()));
+            }
+            rep.add("dependency_pairs", 1);
+            if let ((true, Some(on)), (true, Some(off))) = (&outs[0], &outs[1]) {
+                let body = s.body(1);
+                let le = first_le(body.as_bytes());
+                let mut plus = off.clone();
+                plus.extend_from_slice(le.as_bytes());
+                let ends_in_text = classify(split_lines(&body).last().copied().unwrap_or("")).is_none() && !body.is_empty();
+                if on != off && *on != plus {
+                    rep.violate("dependency-differs-by-more-than-one-line-ending", format!("project {}: dependency {} built through its includer: with the option {:?}, without {:?}", s.to_json(), s.outp(1), show(on), show(off)), json!({"engine": "E-proj", "c13": true, "spec": s.to_json()}));
+                } else if ends_in_text && (*on != plus || off.ends_with(b"\n")) {
+                    rep.violate("option-does-not-reach-dependency", format!("project {}: dependency {} ends with a text line; with the option {:?}, without {:?}", s.to_json(), s.outp(1), show(on), show(off)), json!({"engine": "E-proj", "c13": true, "spec": s.to_json()}));
+                }
+            }
+}
+
+/// C13 on files that are built as DEPENDENCIES of the named file: the option must reach them too.
+/// Only leaf files are compared (a file that includes another one legitimately differs in the middle).
+pub fn c13_dependency_pairs(rep: &Report) {
+    let sp: Vec<PSpec> = specs(2).into_iter().filter(|s| s.n == 2 && s.edges == 1 && !s.crlf_mid).collect();
+    rep.set("dependency_pairs_projects", json!(sp.len()));
+    sharded_dyn(rep, par_threads(), |_k, _n, next, rep| {
+        let scratch = Scratch::new();
+        let base = scratch.p("p");
+        loop {
+            let i = next();
+            if i >= sp.len() {
+                break;
+            }
+            c13_pair_for_spec(rep, &base, &sp[i]);
+        }
+    });
+}
+
 pub fn replay(v: &Value) -> bool {
+    if v["c13"].as_bool() == Some(true) {
+        let rep = Report::new("C13", "quick");
+        let scratch = Scratch::new();
+        c13_pair_for_spec(&rep, &scratch.p("p"), &PSpec::from_json(&v["spec"]));
+        for x in rep.violations.lock().unwrap().iter() {
+            println!("  [{}] {}", x.signature, x.message);
+        }
+        return rep.n_violations() > 0;
+    }
     let rep = Report::new("C01", "quick");
     let sp = PSpec::from_json(&v["spec"]);
     let scratch = Scratch::new();
